@@ -301,7 +301,11 @@ class C05(Engine):
         if exc is not None and exc[0] != "CalledProcessError":
             viol("no.exception", f"program\n{src}raised {exc[0]}\n{exc[2]}", exc=exc[0])
         else:
-            if got_ran != want_ran:
+            # a !() object that ends a statement is not waited for (its stages start when they start):
+            # it must have run, but its position relative to later statements is not defined
+            lazy = {lf_["leaf"] for t_ in case["stmts"] for lf_ in [_final_leaf(t_)] if lf_["form"] == "!()"}
+            same = sorted(got_ran) == sorted(want_ran) and [x for x in got_ran if x not in lazy] == [x for x in want_ran if x not in lazy]
+            if not same:
                 viol(
                     "ran.exact",
                     f"program\n{src}ran leaves {got_ran} but short-circuit evaluation over the exit codes {[(lf['leaf'], lf['stages'][-1]['rc']) for lf in leaves]} runs {want_ran}",
@@ -378,6 +382,12 @@ def _alias(lid, j, st, spec, log):
         return st["rc"]
 
     return fn
+
+
+def _final_leaf(t):
+    while "op" in t:
+        t = t["r"]
+    return t
 
 
 def _leaves_of(case):
